@@ -87,6 +87,11 @@ def gen_case(rng):
         lines.insert(r.randint(0, len(lines)), {'kind': 'eq', 'text': eqline(n + '(0)', G.fmt_num(v)),
                                                 'trail': r.random() < 0.3})
         expected.append(['ic', n, G.fmt_num(v)])
+    if spec['time'] is None and r.random() < 0.35:
+        # an initial condition on the time axis the user did NOT define: the default 't = k' is still supplied
+        tv = r.choice(['5.', '1990.0', '-1.0'])
+        lines.insert(r.randint(0, len(lines)), {'kind': 'eq', 'text': eqline('t(0)', tv), 'trail': r.random() < 0.3})
+        expected.append(['ic', 't', tv])
     params = [{'kind': 'eq', 'text': eqline('MaxTime', str(spec['maxtime'])), 'trail': r.random() < 0.3}]
     if spec['tol'] is not None:
         params.append({'kind': 'eq', 'text': eqline('Err_Tolerance', repr(spec['tol'])), 'trail': False})
@@ -115,6 +120,7 @@ def gen_case(rng):
     lines = lines + params
     return {'kind': 'block', 'lines': lines, 'expected': expected, 'malformed': malformed,
             'maxtime': spec['maxtime'], 'tol': spec['tol'], 'has_time': spec['time'] is not None,
+            'ic_on_default_time': any(e[0] == 'ic' and e[1] == 't' for e in expected) and spec['time'] is None,
             'cseed': rng.getrandbits(30), 'names': G.all_value_names(spec) + [d['name'] for d in spec['decos']]}
 
 
@@ -133,7 +139,8 @@ class C14(object):
             'present')
     assumptions = ["variable names never contain the word 'exogenous'", 'descriptions are single-line texts',
                    'a whole-line comment containing the marker word IS the marker (the model emits it that way)']
-    required_counters = ('block.judged', 'lines.judged', 'hostile_variant.judged', 'malformed.judged', 'bad_run_parameter.judged',
+    required_counters = ('block.judged', 'lines.judged', 'hostile_variant.judged', 'malformed.judged', 'bad_run_parameter.judged', 'reused_parser.judged',
+                         'block.judged.with_initial_condition_on_default_time_axis',
                          'model_desc.judged')
 
     def n_cases(self, tier):
@@ -192,6 +199,25 @@ class C14(object):
             variants[mode] = (self.lists_of(p), msg, text)
         base, msg, text = variants['none']
         rec.count('block.judged')
+        if case.get('ic_on_default_time'):
+            rec.count('block.judged.with_initial_condition_on_default_time_axis')
+        # a parser object that has already read another block (with an exogenous section and its own time variable)
+        # classifies this one exactly like a fresh parser
+        from sfc_models.equation_parser import EquationParser
+        used = EquationParser()
+        try:
+            used.ParseString('t = k + 1990.\nzz_a = 0.5*zz_a + zz_g\nzz_l = zz_a(k-1)\nzz_a(0) = 2.\nMaxTime = 77\nErr_Tolerance = 0.5\nexogenous\nzz_g = [1.]*80')
+            msg2 = used.ParseString(text)
+            again = self.lists_of(used)
+        except Exception as e:
+            rec.violate('reused_parser_fails', {'err': repr(e), 'text': text[:800]})
+            return self.result(case, rec)
+        rec.count('reused_parser.judged')
+        if again != base:
+            diff = [k for k in base if base[k] != again[k]]
+            rec.violate('reused_parser_classifies_differently', {'differs_in': diff, 'fresh': {k: base[k] for k in diff},
+                                                                 'reused': {k: again[k] for k in diff}, 'text': text[:800]})
+            return self.result(case, rec)
         # comment inertness
         for mode in ('plain', 'hostile'):
             rec.count('hostile_variant.judged' if mode == 'hostile' else 'plain_variant.judged')
